@@ -24,6 +24,7 @@ def run(ctx):
     ctx.guard(lex_rule, ctx, g)
     sources = keyword_fields(ctx, g)
     ctx.guard(taint, ctx, g, sources)
+    ctx.guard(self_rule, ctx)
     ctx.assume('identifiers that merely coincide with keywords (kw_as_identifier_*) are names, not keywords')
     return ('Keyword-carrying Node fields are computed from the grammar (production position whose symbol derives a '
             'keyword terminal -> constructor field); every read of such a field in the interpreter and prebuilder '
@@ -72,6 +73,35 @@ def lex_rule(ctx, g):
         order = [x.name for x in g.token_rules]
         r.check(order.index(t.name) < order.index('ID'), 't_%s is tried before t_ID' % t.name, t.fn, construct=CLS + '.t_' + t.name,
                 key='order', msg='t_%s is defined after t_ID' % t.name)
+
+
+def self_rule(ctx):
+    '''mixed position (instance_name : variable_name | SELF): the prebuilders that declare `self` on demand must compare the name
+    case-normalised AND declare the variable under the normalised spelling'''
+    repo = ctx.repo
+    r = ctx.rule('C08-SELF', 'the implicit self variable is recognised and declared independent of letter case', floor=3,
+                 oracle='grammar: instance_name : variable_name | SELF; sibling agreement of the find_symbol overrides')
+    n = 0
+    for c in repo.classes('bridgepoint.prebuild'):
+        fn = repo.methods(c).get('find_symbol')
+        if fn is None or c.name in ('SymbolTable', 'ActionPrebuilder'):
+            continue
+        nm = param_names(fn)[1]
+        for node in ast.walk(fn):
+            if isinstance(node, ast.If) and 'self' in src(node.test):
+                n += 1
+                q = 'bridgepoint.prebuild:%s.find_symbol' % c.name
+                norm = ("%s.lower() == 'self'" % nm) in src(node.test) or ("%s.casefold() == 'self'" % nm) in src(node.test) or \
+                    ("%s.upper() == 'SELF'" % nm) in src(node.test)
+                r.check(norm, '%s compares the name case-normalised with self' % q, node, construct=q, key='self-compare',
+                        msg='%s recognises the implicit instance handle with `%s`, which depends on the letter case of SELF' % (q, src(node.test)))
+                calls = [x for x in ast.walk(node) if isinstance(x, ast.Call) and call_attr(x) == 'v_int']
+                ok = calls and all(len(x.args) >= 2 and isinstance(x.args[1], ast.Constant) and x.args[1].value == 'self' for x in calls)
+                r.check(bool(ok), '%s declares the handle under the spelling `self`' % q, node, construct=q, key='self-declare',
+                        msg='%s declares the implicit handle under the spelling found in the source (`%s`): SELF / Self / self then denote different '
+                            'variables' % (q, src(calls[0].args[1]) if calls and len(calls[0].args) > 1 else '?'))
+    if n < 3:
+        raise AnalysisError('only %d find_symbol overrides with a self branch found' % n)
 
 
 def ctor_fields(p):
@@ -177,6 +207,11 @@ def _scan(r, fn, nodevar, fields, qual):
             return tainted_vars[e.id]
         if isinstance(e, ast.Call) and dotted(e.func) in ('str', 'repr') and e.args:
             return taint_of(e.args[0])
+        if isinstance(e, (ast.Tuple, ast.List, ast.Set)):
+            for x in e.elts:
+                t = taint_of(x)
+                if t:
+                    return t
         return None
 
     # local propagation (flow-insensitive; handlers are short)
